@@ -511,6 +511,8 @@ IDIOMS = [
     ("N7.u32_to_le", "($_x as u32).to_le_bytes()", "u32_to_le_bytes($_x as u32)"),
     ("N7.u64_from_le", "u64::from_le_bytes($_e.try_into().unwrap())", "u64_from_le_slice(&$_e)"),
     ("N7.u32_from_le", "u32::from_le_bytes($_e.try_into().unwrap())", "u32_from_le_slice(&$_e)"),
+    ("N7.usize_from_bytes", "usize::from_bytes($_e)", "usize_from_bytes($_e)"),
+    ("N7.stamp_from_bytes", "Stamp::from_bytes($_e)", "stamp_from_bytes($_e)"),
     ("N8.format", "format!($_a)", "StrH::msg()"),
     ("N3.wild_closure_param", "|_| $_e)", "|_e| $_e)"),
 ]
@@ -934,6 +936,7 @@ def build_unit(unit_dir, out_dir):
             for a, b in typemap:
                 ft.replace_tokpat("N6.typemap", a, b)
             txt = ft.text
+            txt = re.sub(r"\bpub\s*\((?:super|crate|self|in [^)]*)\)", "pub", txt)
             txt = re.sub(r"^(\s*)(pub(\([^)]*\))?\s+)?(struct|enum|const|type)\b", r"\1pub \4", txt, count=1, flags=re.M)
             if kind in ("struct",):
                 txt = make_fields_pub(txt)
@@ -1174,7 +1177,7 @@ def emit_fn(em, info, unit, cur_source, blk, typemap):
     header = re.sub(r"^(\s*)(pub(\([^)]*\))?\s+)?((const\s+)?(unsafe\s+)?fn)\b", r"\1pub \4", header, count=1, flags=re.M)
     if any(s.name == "world" for s in subs):
         hm = mask_rust(header)
-        po = hm.find("(", re.search(r"\bfn\b", hm).end())
+        po = params_open_of(hm)
         pc = match_close(hm, po)
         inner = hm[po + 1:pc].strip()
         wt = next(s for s in subs if s.name == "world").args.strip() or "Tracked(w): Tracked<&mut World>"
@@ -1182,7 +1185,7 @@ def emit_fn(em, info, unit, cur_source, blk, typemap):
         ft.log.append({"rule": "N12.world", "fn": fnpath, "from": "signature", "to": "+ " + wt})
     if retname:
         hm = mask_rust(header)
-        po = hm.find("(", re.search(r"\bfn\b", hm).end())
+        po = params_open_of(hm)
         pc = match_close(hm, po)
         arrow = hm.find("->", pc)
         if arrow < 0:
@@ -1263,6 +1266,25 @@ def emit_fn(em, info, unit, cur_source, blk, typemap):
     if trusted_fn:
         info["assumptions"].append({"origin": f"{unit}/unit.vx (fn {fnpath})", "line": d.lineno, "kind": "external_body", "text": f"real body of {fnpath} kept but trusted against its sidecar contract"})
     info["rewrites"] += ft.log
+
+
+def params_open_of(hm):
+    """index of the '(' opening the parameter list in a masked fn header (skips `<..>` generics, where `->` may occur)."""
+    k = re.search(r"\bfn\b", hm).end()
+    depth = 0
+    j = k
+    while j < len(hm):
+        ch = hm[j]
+        if ch == "<":
+            depth += 1
+        elif ch == ">" and hm[j - 1] != "-":
+            depth -= 1
+        elif ch == "(" and depth == 0:
+            return j
+        elif ch == "(":
+            j = match_close(hm, j)
+        j += 1
+    raise VxError("no parameter list")
 
 
 def indent(txt, n):
